@@ -1059,7 +1059,7 @@ class Interp:
             recv = self.force(self.eval(call.func.value, fr))
             valsf = self.force(vals)
             if isinstance(recv, VList) and not isinstance(recv, VTuple) and isinstance(valsf, VSeq) \
-                    and isinstance(call.func.value, (ast.Name, ast.Attribute)):
+                    and isinstance(call.func.value, (ast.Name, ast.Attribute, ast.Subscript)):
                 # a list of concrete length grows by a sequence of symbolic length: it becomes a symbolic sequence
                 ty = T("seq", [valsf.elem])
                 nv = VSeq(z3.Concat(to_z3(recv, ty), valsf.z) if recv.items else valsf.z, valsf.elem)
@@ -2298,26 +2298,51 @@ class Interp:
         except Exception:
             return None
         sub = Frame(fr.fdef, fr.module, fr.selfobj, fr)
-        sub.locals[g.target.id] = from_z3(x, xs.elem)
-        ntrace, nvc = len(self.ctx.trace), len(self.ctx.vcs)
-        self.spec_mode += 1
-        try:
-            val = self.force(self.eval(e.elt, sub))
-        except (OutOfSubset, SpecUndefined, PyRaise):
-            return None
-        finally:
-            self.spec_mode -= 1
-        if len(self.ctx.trace) != ntrace or len(self.ctx.vcs) != nvc:
-            return None
-        if isinstance(val, VBool):
-            et = "bool"
-        elif isinstance(val, VInt):
-            et = "int"
-        elif isinstance(val, VStr):
-            et = val.kind
-        else:
-            return None
-        vz = self.truth(val) if et == "bool" else val.z
+        xv = from_z3(x, xs.elem)
+        # an element of union type is evaluated once per alternative (no fork on the bound variable: a path condition on
+        # it would restrict the quantified fact below to the elements of one alternative without saying so)
+        alts = list(xv.alts) if isinstance(xv, VUnion) else [(z3.BoolVal(True), xv)]
+        ntrace, nvc, npc = len(self.ctx.trace), len(self.ctx.vcs), len(self.ctx.pc)
+        parts, et = [], None
+        for cond, xalt in alts:
+            sub.locals[g.target.id] = xalt
+            self.spec_mode += 1
+            try:
+                val = self.force(self.eval(e.elt, sub))
+            except (OutOfSubset, SpecUndefined, PyRaise):
+                return None
+            finally:
+                self.spec_mode -= 1
+            if len(self.ctx.trace) != ntrace or len(self.ctx.vcs) != nvc or len(self.ctx.pc) != npc:
+                return None
+            if isinstance(val, VBool):
+                et1, vz1 = "bool", self.truth(val)
+            elif isinstance(val, VInt):
+                et1, vz1 = "int", val.z
+            elif isinstance(val, VStr):
+                et1, vz1 = val.kind, val.z
+            elif isinstance(val, (VJson, VDict)):
+                # a JSON-valued element (a dict literal of pure expressions of x): the sequence is a seq[json]
+                try:
+                    et1, vz1 = "json", to_json(val)
+                except OutOfSubset:
+                    return None
+            elif isinstance(val, VTuple) and getattr(val, "ntname", None) and val.ntname in _values.NT_DEFS:
+                # a namedtuple built from pure expressions of x
+                try:
+                    et1 = f"nt[{val.ntname}]"
+                    vz1 = to_z3(val, parse_type(et1))
+                except OutOfSubset:
+                    return None
+            else:
+                return None
+            if et is not None and et1 != et:
+                return None
+            et = et1
+            parts.append((cond, vz1))
+        vz = parts[-1][1]
+        for cond, vz1 in reversed(parts[:-1]):
+            vz = z3.If(cond, vz1, vz)
         r = z3.Const(self.ctx.namer("mapped"), z3.SeqSort(vz.sort()))
         i = z3.Int(self.ctx.namer("i!cmp"))
         self.ctx.assume(z3.Length(r) == z3.Length(xs.z))
